@@ -10,7 +10,10 @@ VALID = ["=", ";", "|", "(", ")", "[", "]", "{", "}", "{{", "}}", "<", ">", "$WS
          " ", "\t", "\n", "\r\n", "  ", "\n\n"]
 NEAR = ["@lef", "@", "@leftx", "@rightt", "@non", "$", "$a", "$1", '"', '""', '"a', '"a\\', "/", "/a", "/\\", "/*", "/* *", "/* **", "'", "!", "#", "%",
         "&", ",", "-", ".", ":", "?", "\\", "^", "_", "`", "~", "0", "9a", "{{{", "}}}", "aB", "Ab", "\x7f", "\x01", "é", "A é", "日本", "\x80", "\xff", "\xc3", "\xe2\x82",
-        "\xed\xa0\x80", "\xf4\x90\x80\x80", "\xc0\xaf", "a\tb", '"a b"', '"\t"', "/\t/", "/a\nb/", "//\r", "// é"]
+        "\xed\xa0\x80", "\xf4\x90\x80\x80", "\xc0\xaf", "a\tb", '"a b"', '"\t"', "/\t/", "/a\nb/", "//\r", "// é",
+        # three- and four-byte characters next to tokens, separators and inside the delimited tokens (what is read ahead is given back
+        # byte-exactly: lexemes, the error position and the following token tell)
+        "€", "x€", "😀", "ab😀cd", "AB😀", "\U00010000", "=😀;", "/* c 😀 */", "/* 😀", '"😀"', "/😀/", "// 😀", "grammar😀", "😀😀", "@left😀"]
 SEPS = ["", "", " ", "\n", "\t", " \n ", "\r\n"]
 
 
